@@ -27,7 +27,7 @@ LEVEL_NOTE = "The valid region and sea cells are computed independently from the
 RULE = ("case = world (mask, flow, subgrid) x run (scheme, diffusion, release, IBM schedule, layout). Non-trivial: at least one move cancelled by land or one particle killed at the "
         "open boundary or one inactive particle held; distinct by case parameters.")
 MANDATORY = ["moved", "cancelled_by_land", "killed_at_boundary", "inactive_held", "diffusion_on", "scheme_EF", "scheme_RK2", "scheme_RK4",
-             "tracker_updates", "records_checked", "release_near_rim", "subgrid", "dense", "one_cell_channel"]
+             "tracker_updates", "records_checked", "release_near_rim", "subgrid", "dense", "one_cell_channel", "release_event_adding_nobody"]
 ASSUMPTIONS = ["release positions in sea cells of the valid region (as the property quantifies)"]
 TIMEOUT = {"quick": 900, "thorough": 3400}
 
@@ -105,7 +105,12 @@ def build(case: dict[str, Any]):
         step = 0 if (not case["cont"] or len(rows) < case["nrel"] // 2) else int(rng.integers(0, max(1, nsteps - 2)))
         rows.append([step, x, y, float(rng.uniform(0, 50))])
     rows.sort(key=lambda r: r[0])
-    relrows = [[str(tadd(start, r[0] * dt)), r[1], r[2], r[3]] for r in rows]
+    relrows = [[str(tadd(start, r[0] * dt)), 1, r[1], r[2], r[3]] for r in rows]
+    # release times at which every row has mult = 0 (a release event that adds nobody), spread over the run
+    if case["idx"] % 2 == 0:
+        for s_ in sorted({int(x) for x in rng.integers(1, max(2, nsteps - 1), size=4)}):
+            relrows.append([str(tadd(start, s_ * dt)), 0, 0.5 * (xlo + xhi), 0.5 * (ylo + yhi), 1.0])
+        relrows.sort(key=lambda r: r[0])
     npart = len(rows)
     deact: dict[str, list[int]] = {}
     kill: dict[str, list[int]] = {}
@@ -116,7 +121,7 @@ def build(case: dict[str, Any]):
     if nk:
         kill[str(int(rng.integers(1, 6)))] = [int(p) for p in rng.choice(npart, size=nk, replace=False)]
     run = dict(start=start, stop=str(tadd(start, nsteps * dt)), dt=dt, advection=case["scheme"], diffusion=case["diffusion"], subgrid=case["subgrid"],
-               release=dict(columns=["release_time", "X", "Y", "Z"], rows=relrows, header=True),
+               release=dict(columns=["release_time", "mult", "X", "Y", "Z"], rows=relrows, header=True),
                ibm=dict(module=C.REC_IBM, kill=kill, deactivate=deact, log=False),
                output=dict(period=dt * 2, layout=case["layout"]))
     return dict(world=w, run=run), M, (xlo, xhi, ylo, yhi), near_rim
@@ -138,9 +143,16 @@ def install_tracker_monitor(hk: Hooks, M, box, dt: float, dx: float, dy: float, 
     def after_diff(tok, res, self, num_particles):
         spy["diff"] = (np.array(res[0], float).copy(), np.array(res[1], float).copy())
 
+    dead_pids: set[int] = set()
+
     def before_upd(self):
         st = self.modules["state"]
         spy.clear()
+        # nobody who was seen dead (killed at the boundary, or by the IBM) may be alive again when the next move starts
+        if dead_pids and len(st.pid) and len(V) <= 3:
+            back = [int(p) for p, a in zip(st.pid, st.alive) if a and int(p) in dead_pids]
+            if back:
+                V.append(C.viol(f"step {int(self.modules['time'].step)}: pids {back[:8]} were dead after an earlier step and are alive in the state again", **desc))
         return dict(X=st.X.copy(), Y=st.Y.copy(), alive=np.array(st.alive, bool).copy(), active=np.array(st.active, bool).copy(), pid=st.pid.copy(),
                     step=int(self.modules["time"].step))
 
@@ -231,6 +243,7 @@ def install_tracker_monitor(hk: Hooks, M, box, dt: float, dx: float, dy: float, 
                             f"[{xlo},{xhi}]x[{ylo},{yhi}]", **desc))
             return
         cnt["particle_steps_classified"] = cnt.get("particle_steps_classified", 0) + n
+        dead_pids.update(int(p) for p, a_ in zip(tok["pid"], alive_n) if not a_)
         if extra_after is not None:
             extra_after(tok, self)
 
@@ -238,6 +251,15 @@ def install_tracker_monitor(hk: Hooks, M, box, dt: float, dx: float, dy: float, 
         hk.wrap(Tracker, name, None, after_adv)
     hk.wrap(Tracker, "diffuse", None, after_diff)
     hk.wrap(Tracker, "update", before_upd, after_upd)
+    # particles killed by the IBM (after the move) count as dead from the end of the model step on
+    from ladim.model import Model  # noqa: PLC0415
+
+    def after_model_update(tok, res, self):
+        st = self.state
+        dead_pids.update(int(p) for p, a_ in zip(st.pid, st.alive) if not a_)
+
+    hk.wrap(Model, "update", None, after_model_update)
+    return dead_pids
 
 
 def check_pid_sets(recs, V: list, sit: dict, desc: dict) -> None:
@@ -277,6 +299,7 @@ def run_case(case: dict[str, Any], wd: Path) -> dict[str, Any]:
     sit["subgrid"] = int(case["subgrid"] is not None)
     sit["dense"] = int(case["layout"] == "dense")
     sit["one_cell_channel"] = int(case["mask_kind"] in (1, 3))
+    sit["release_event_adding_nobody"] = int(case["idx"] % 2 == 0)
     if not res.ok:
         V.append(C.viol(f"run did not complete: {res.exc}", tb=res.tb[-1500:], **desc))
     else:
